@@ -104,7 +104,10 @@ LEVEL_TEXT = {
     'C19': ("Machine-checked bookkeeping: table size = live + reusable positions, grows only when none is reusable, erasing keeps the size, queues are empty "
             "after a pass, a destroyed signal's table is empty, in every reachable world. Bytes are NOT modelled: the harness observes, after every call, the "
             "set of tracked callables still alive (must equal the model's) and, after teardown, per-label instance counts (must be 0); ASan's leak checker runs "
-            "on every script.", '6/C19'),
+            "on every script. Property layer: machine-checked that after any legal history every connection made for a binding node is owned by a leaf of a live "
+            "binding (no unowned connection can accumulate); tie: generated state-restoring cycles (move away and back, bind/reset, create/destroy, observe/"
+            "unobserve, rebind, evaluators, held bindings) repeated around heapmark/heapcheck - where the model's footprint came back, the bytes held by the real "
+            "library (counting operator new) must be unchanged.", '6/C19'),
     'C01': ("Machine-checked on the executable model of Signal::Impl: an emission with non-re-entrant slot bodies logs EXACTLY one invocation per connected, "
             "unblocked connection, in table order, with bound values followed by the leading emitted values the callable needs, and one queued invocation per "
             "deferred connection (C01_emit_exact); with arbitrary re-entrant bodies never twice (C01_at_most_once); connect/disconnect/block change exactly the "
